@@ -88,7 +88,10 @@ fn ids_of(v: &[super::rbench::Obs]) -> Vec<u32> {
 }
 
 /// Reader -> application wake-up scenario.
-pub fn run_reader_scenario(mech: Mech, reliable: bool, nsamples: usize, out_of_order: bool, schedule_seed: u64, pct_depth: usize) -> ScOut {
+/// `lost_then_heartbeat` (reliable only, needs nsamples >= 2): one sample is never sent, its successors are held
+/// back by the reliable reader, and a stand-alone non-final HEARTBEAT whose first_sn lies past the hole (the writer
+/// cannot repair it any more) releases them; the reader answers that HEARTBEAT with an ACKNACK.
+pub fn run_reader_scenario(mech: Mech, reliable: bool, nsamples: usize, out_of_order: bool, lost_then_heartbeat: bool, schedule_seed: u64, pct_depth: usize) -> ScOut {
   let sched = Sched::new(2);
   let (tx_cons, rx_cons) = mpsc::channel::<ConsumerSide>();
   let wguid = {
@@ -100,7 +103,8 @@ pub fn run_reader_scenario(mech: Mech, reliable: bool, nsamples: usize, out_of_o
     g[15] = 0x02;
     g
   };
-  let produced: Vec<u32> = (1..=nsamples as u32).collect();
+  let lost: Option<i64> = if lost_then_heartbeat && reliable && nsamples >= 2 { Some(1 + (schedule_seed % (nsamples as u64 - 1)) as i64) } else { None };
+  let produced: Vec<u32> = (1..=nsamples as u32).filter(|id| Some(*id as i64) != lost).collect();
   let parks = Arc::new(AtomicU64::new(0));
   let wakeups = Arc::new(AtomicU64::new(0));
 
@@ -125,8 +129,30 @@ pub fn run_reader_scenario(mech: Mech, reliable: bool, nsamples: usize, out_of_o
     }
     s0.enter(0);
     for sn in order {
+      if Some(sn) == lost {
+        continue;
+      }
       let dg = data_dgram(&prefix, weid, reid, sn, sn as u32, false);
       prod.inject(&dg);
+    }
+    if let Some(l) = lost {
+      // HEARTBEAT first = l + 1, last = n, not final: "what is before l + 1 is gone"
+      let mut v = Vec::new();
+      v.extend_from_slice(b"RTPS");
+      v.extend_from_slice(&[2, 4, 1, 0x12]);
+      v.extend_from_slice(&prefix);
+      let mut hb = Vec::new();
+      hb.extend_from_slice(&reid);
+      hb.extend_from_slice(&weid);
+      hb.extend_from_slice(&0i32.to_le_bytes());
+      hb.extend_from_slice(&((l + 1) as u32).to_le_bytes());
+      hb.extend_from_slice(&0i32.to_le_bytes());
+      hb.extend_from_slice(&(nsamples as u32).to_le_bytes());
+      hb.extend_from_slice(&1i32.to_le_bytes());
+      v.extend_from_slice(&[0x07, 0x01]);
+      v.extend_from_slice(&(hb.len() as u16).to_le_bytes());
+      v.extend_from_slice(&hb);
+      prod.inject(&v);
     }
     s0.leave();
     // keep the Reader half alive until the consumer is done
@@ -389,6 +415,172 @@ pub fn run_async_write_scenario(nwrites: usize, schedule_seed: u64, pct_depth: u
   let (trace, hits) = sched.take_trace();
   AwOut {
     writes_requested: nwrites,
+    writes_completed: done,
+    writes_failed: failed,
+    completed_only_on_final_repoll: only_final,
+    parks,
+    wakeups,
+    steps,
+    schedule_hash: h,
+    exhausted,
+    trace: trace.into_iter().map(|(t, s)| (t, s.to_string())).collect(),
+    site_hits: hits.into_iter().map(|(k, v)| (k.to_string(), v)).collect(),
+  }
+}
+
+// ---------------------------------------------------------------------------
+// async_wait_for_acknowledgments vs the Writer's command loop and the peer's ACKNACK
+// ---------------------------------------------------------------------------
+/// T0 runs the Writer (command loop; the matched reliable reader acknowledges whatever has been written, as its own
+/// scheduled step); T1 is an async task that writes one sample and awaits `async_wait_for_acknowledgments`, `nrounds`
+/// times, under executor discipline. Every poll hands over a waker of a new generation, and bit k of `repoll_mask`
+/// makes the k-th Pending be followed by one more poll that nothing asked for (a sibling future woke the task).
+/// AwOut: writes_* count rounds.
+pub fn run_async_ackwait_scenario(nrounds: usize, repoll_mask: u32, schedule_seed: u64, pct_depth: usize) -> AwOut {
+  use std::{future::Future, task::Context};
+  use super::wbench::{FlagWaker, GenWaker};
+  let sched = Sched::new(2);
+  let (tx_dw, rx_dw) = mpsc::channel::<SendPtr<crate::with_key::DataWriter<VSample>>>();
+  let (tx_done, rx_done) = mpsc::channel::<()>();
+  let task_finished = Arc::new(std::sync::atomic::AtomicBool::new(false));
+  let rguid = {
+    let mut g = [0u8; 16];
+    g[0] = 0xC1;
+    g[1] = 0x4;
+    g[13] = 0x73;
+    g[14] = 1;
+    g[15] = 0x07;
+    g
+  };
+
+  let s0 = sched.clone();
+  let tf0 = task_finished.clone();
+  let t0 = std::thread::spawn(move || {
+    let mut wb = WriterBench::new(WbCfg { reliable: true, history: 0, transient_local: false, frag_size: 0, writer_key: [0, 0, 0x73] });
+    wb.match_reader(rguid, true, "127.0.0.1:35010".parse().unwrap());
+    tx_dw.send(SendPtr(&*wb.dw as *const _)).unwrap();
+    let weid = wb.writer_entity_id();
+    let own_prefix = wb.own_prefix;
+    let mut acked = 0i64;
+    let mut count = 0i32;
+    s0.enter(0);
+    loop {
+      wb.process_commands();
+      let (_, last) = wb.first_last();
+      if last > acked {
+        // the reader's ACKNACK for everything up to `last` arrives as a step of its own
+        sched::yield_at("peer:before-acknack");
+        count += 1;
+        let mut v = Vec::new();
+        v.extend_from_slice(b"RTPS");
+        v.extend_from_slice(&[2, 4, 1, 0x12]);
+        v.extend_from_slice(&rguid[0..12]);
+        v.extend_from_slice(&[0x0e, 0x01, 12, 0]);
+        v.extend_from_slice(&own_prefix);
+        let mut b = Vec::new();
+        b.extend_from_slice(&rguid[12..16]);
+        b.extend_from_slice(&weid);
+        b.extend_from_slice(&(((last + 1) >> 32) as i32).to_le_bytes());
+        b.extend_from_slice(&((last + 1) as u32).to_le_bytes());
+        b.extend_from_slice(&0u32.to_le_bytes());
+        b.extend_from_slice(&count.to_le_bytes());
+        v.extend_from_slice(&[0x06, 0x03]);
+        v.extend_from_slice(&(b.len() as u16).to_le_bytes());
+        v.extend_from_slice(&b);
+        wb.inject(&v);
+        acked = last;
+        continue;
+      }
+      if tf0.load(Ordering::SeqCst) {
+        break;
+      }
+      if sched::block_here("writer-loop:idle") {
+        wb.process_commands();
+        break;
+      }
+    }
+    s0.leave();
+    let _ = rx_done.recv();
+    drop(wb);
+  });
+
+  let s1 = sched.clone();
+  let tf1 = task_finished.clone();
+  let t1 = std::thread::spawn(move || -> (usize, usize, bool, u64, u64) {
+    let p = rx_dw.recv().unwrap();
+    let dw: &crate::with_key::DataWriter<VSample> = unsafe { &*p.0 };
+    let hits = Arc::new(FlagWaker(Default::default()));
+    let latest = Arc::new(AtomicU64::new(0));
+    let stale = Arc::new(AtomicU64::new(0));
+    let (mut done, mut failed, mut only_final, mut parks, mut wakeups) = (0usize, 0usize, false, 0u64, 0u64);
+    let mut pendings = 0u32;
+    s1.enter(1);
+    'rounds: for i in 0..nrounds {
+      if dw.write(VSample { key: 1, id: i as u32 + 1, blob: vec![] }, None).is_err() {
+        failed += 1;
+        continue;
+      }
+      sched::yield_at("task:after-write");
+      let mut fut = Box::pin(dw.async_wait_for_acknowledgments());
+      loop {
+        let before = hits.0.load(Ordering::SeqCst);
+        let gen = latest.fetch_add(1, Ordering::SeqCst) + 1;
+        let waker = std::task::Waker::from(Arc::new(GenWaker { gen, latest: latest.clone(), hits: hits.clone(), stale: stale.clone() }));
+        let mut cx = Context::from_waker(&waker);
+        match fut.as_mut().poll(&mut cx) {
+          std::task::Poll::Ready(Ok(true)) => {
+            done += 1;
+            break;
+          }
+          std::task::Poll::Ready(_) => {
+            failed += 1;
+            break;
+          }
+          std::task::Poll::Pending => {
+            let k = pendings;
+            pendings += 1;
+            if k < 32 && repoll_mask >> k & 1 == 1 {
+              sched::yield_at("task:before-unrequested-repoll");
+              continue;
+            }
+            parks += 1;
+            loop {
+              if hits.0.load(Ordering::SeqCst) > before {
+                wakeups += 1;
+                break;
+              }
+              if sched::block_here("task:parked") {
+                if hits.0.load(Ordering::SeqCst) > before {
+                  wakeups += 1;
+                  break;
+                }
+                // wind up: would the future complete if somebody polled it?
+                let mut cx = Context::from_waker(&waker);
+                if let std::task::Poll::Ready(Ok(true)) = fut.as_mut().poll(&mut cx) {
+                  only_final = true;
+                  done += 1;
+                }
+                break 'rounds;
+              }
+            }
+          }
+        }
+      }
+      drop(fut);
+      sched::yield_at("task:between-rounds");
+    }
+    tf1.store(true, Ordering::SeqCst);
+    s1.leave();
+    (done, failed, only_final, parks, wakeups)
+  });
+
+  let (steps, h, exhausted) = sched.drive_mode(schedule_seed, 40_000, pct_depth, 8 * nrounds + 10);
+  let (done, failed, only_final, parks, wakeups) = t1.join().expect("task thread");
+  let _ = tx_done.send(());
+  t0.join().expect("writer thread");
+  let (trace, hits) = sched.take_trace();
+  AwOut {
+    writes_requested: nrounds,
     writes_completed: done,
     writes_failed: failed,
     completed_only_on_final_repoll: only_final,
